@@ -115,6 +115,15 @@ impl ParallelRuleEngine {
 
             // Decide whether to use parallel execution for this level
             let should_parallelize = self.should_parallelize(rules_at_level);
+            #[cfg(feature = "verif-hooks")]
+            crate::verif_hooks::event(|| {
+                format!(
+                    "level {} {} {}",
+                    salience,
+                    rules_at_level.len(),
+                    should_parallelize
+                )
+            });
 
             let contexts = if should_parallelize {
                 self.execute_rules_parallel(rules_at_level, facts, debug_mode)?
@@ -132,6 +141,9 @@ impl ParallelRuleEngine {
 
             execution_contexts.extend(contexts);
         }
+
+        #[cfg(feature = "verif-hooks")]
+        crate::verif_hooks::event(|| format!("return {} {}", total_evaluated, total_fired));
 
         Ok(ParallelExecutionResult {
             total_rules_evaluated: total_evaluated,
@@ -213,6 +225,11 @@ impl ParallelRuleEngine {
                             }
                         }
 
+                        #[cfg(feature = "verif-hooks")]
+                        crate::verif_hooks::event(|| {
+                            format!("eval {} {} {}", thread_id, rule.name, fired)
+                        });
+
                         thread_results.push(RuleExecutionContext {
                             rule: rule.clone(),
                             fired,
@@ -222,7 +239,11 @@ impl ParallelRuleEngine {
                     }
 
                     let mut results = results_clone.lock().unwrap();
+                    #[cfg(feature = "verif-hooks")]
+                    crate::verif_hooks::event(|| format!("lock {}", thread_id));
                     results.extend(thread_results);
+                    #[cfg(feature = "verif-hooks")]
+                    crate::verif_hooks::event(|| format!("extend {} {}", thread_id, results.len()));
                 })
             })
             .collect();
@@ -237,6 +258,8 @@ impl ParallelRuleEngine {
         }
 
         let results = results.lock().unwrap();
+        #[cfg(feature = "verif-hooks")]
+        crate::verif_hooks::event(|| format!("join {}", results.len()));
         Ok(results.clone())
     }
 
